@@ -707,8 +707,10 @@ func runC10Seq(rec *common.Recorder, idx uint64, seed uint64) bool {
 	if rec.WantSample() && len(s.script) > 10 {
 		rec.Sample(map[string]interface{}{"mode": "c10seq", "index": idx, "script": s.script})
 	}
+	hadViol := cc.numViol() > 0
+	cc.openAll()
 	cc.flush(map[string]interface{}{"script": s.script, "events": tail(cc.log.snapshot(), 200)})
-	return !cc.dead
+	return !cc.dead && !hadViol
 }
 
 func tail(e []event, n int) []event {
